@@ -101,7 +101,7 @@ def cbmc_pipeline(ctx, job, cfile, vac):
     defs = " ".join("-D" + d for d in job.defines) + (" -DVACUITY" if vac else "")
     tmo = job.timeout or (1800 if ctx.thorough else 240)
     cmds = []
-    cmd1 = "goto-cc -I%s -I%s %s --function %s %s -o %s" % (HERE, ctx.spec_dir, defs, job.harness, cfile, a)
+    cmd1 = "goto-cc -I%s -I%s -I%s %s --function %s %s -o %s" % (HERE, ctx.spec_dir, ctx.out, defs, job.harness, cfile, a)
     rc, so, se, t1 = _sh(cmd1, 120)
     cmds.append(cmd1)
     if rc != 0:
